@@ -6,6 +6,7 @@ import (
 	"math/big"
 	"runtime"
 
+	ike "github.com/free5gc/ike"
 	"github.com/free5gc/ike/eap"
 	"github.com/free5gc/ike/message"
 	"github.com/free5gc/ike/security"
@@ -226,6 +227,54 @@ func enduranceOracle(in enduranceIn) probe.Outcome {
 				return probe.Fail("decode number %d in this process yields a different message than the first one did", i)
 			}
 		}
+	case "eap-unmarshal":
+		e := model.EAP{Code: 1, Identifier: 9, Kind: model.EAka, Sub: 1, Attrs: []model.AkaAttr{{Type: model.AT_RAND, Value: bytes.Repeat([]byte{3}, 16)}, {Type: model.AT_RES, Value: model.Bytes{1, 2, 3, 4, 5}}, {Type: model.AT_KDF, Value: model.Bytes{0, 1}}}}
+		w, err := ref.EncodeEAP(e, []int{2, 0, 1})
+		if err != nil {
+			return probe.Fail("HARNESS: %v", err)
+		}
+		x := probe.Exact(w)
+		for i := 1; i <= in.N; i++ {
+			p := new(eap.EAP)
+			if err := p.Unmarshal(x); err != nil {
+				return probe.Fail("EAP decode number %d in this process: %v", i, err)
+			}
+			ak, ok := p.EapTypeData.(*eap.EapAkaPrime)
+			if !ok || p.Identifier != 9 {
+				return probe.Fail("EAP decode number %d yields another packet than the first one did", i)
+			}
+			a, e1 := ak.GetAttr(eap.AT_RES)
+			k, e2 := ak.GetAttr(eap.AT_KDF)
+			if e1 != nil || e2 != nil || !bytes.Equal(a.GetValue(), []byte{1, 2, 3, 4, 5}) || !bytes.Equal(k.GetValue(), []byte{0, 1}) {
+				return probe.Fail("EAP decode number %d yields other attribute values than the first one did", i)
+			}
+		}
+	case "container-decode":
+		// a chain with an unsupported payload in the middle, through the container and through DecodeDecrypt without keys
+		m := model.Message{Header: model.Header{ISPI: 1, RSPI: 2, Major: 2, Exchange: 37, Flags: 8, MsgID: 5}, Payloads: []model.Payload{
+			{Kind: model.KNonce, Data: model.Bytes{5, 6}}, {Kind: model.KRaw, Raw: &model.Raw{Type: 200, Body: model.Bytes{1, 2, 3}}}, {Kind: model.KVendor, Data: model.Bytes{1, 2, 3, 4}}}}
+		w, err := ref.EncodeMessage(m, nil)
+		if err != nil {
+			return probe.Fail("HARNESS: %v", err)
+		}
+		x := probe.Exact(w)
+		for i := 1; i <= in.N; i++ {
+			var c message.IKEPayloadContainer
+			if err := c.Decode(x[16], x[28:]); err != nil || len(c) != 2 {
+				return probe.Fail("container decode number %d in this process: %d payloads, %v", i, len(c), err)
+			}
+			if i%4 == 0 {
+				dm, err := ike.DecodeDecrypt(x, nil, nil, message.Role_Responder)
+				if err != nil || dm == nil || len(dm.Payloads) != 2 {
+					return probe.Fail("DecodeDecrypt (no keys) number %d in this process gives another result than the first one did (%v)", i/4, err)
+				}
+			}
+			n, ok1 := c[0].(*message.Nonce)
+			v, ok2 := c[1].(*message.VendorID)
+			if !ok1 || !ok2 || !bytes.Equal(n.NonceData, []byte{5, 6}) || !bytes.Equal(v.VendorIDData, []byte{1, 2, 3, 4}) {
+				return probe.Fail("container decode number %d in this process yields other payloads than the first one did", i)
+			}
+		}
 	default:
 		return probe.Fail("HARNESS: endurance %q", in.What)
 	}
@@ -235,7 +284,7 @@ func enduranceOracle(in enduranceIn) probe.Outcome {
 // one check "endurance" per property that has such loops (registered at start-up, so that replay files find it)
 var enduranceChecks = func() map[string]*probe.Check[enduranceIn] {
 	m := map[string]*probe.Check[enduranceIn]{}
-	for _, prop := range []string{"C01", "C03", "C08", "C09", "C10", "C14", "C15", "C16", "C17"} {
+	for _, prop := range []string{"C01", "C03", "C08", "C09", "C10", "C13", "C14", "C15", "C16", "C17"} {
 		m[prop] = probe.Define(prop, "endurance", func(t *rapid.T) enduranceIn { panic("enumerated") }, enduranceOracle)
 	}
 	return m
